@@ -47,7 +47,10 @@ def leaf_apply(op, x, Ws, ctr):
     if k == "sin":
         return torch.sin(x)
     if k == "sq":
-        return x * x / 4
+        # bounded square: x^2/4 composed over nested layers reaches 1e9, where sin / gelu derivatives amplify the last-ulp
+        # differences between any two evaluation orders (ill-conditioning of the function, not of either implementation)
+        t = torch.tanh(x)
+        return t * t * 2
     if k == "ugelu":
         return U.gelu(x)           # default constraint: a true function (forward scale == backward scale)
     if k == "usilu":
@@ -171,7 +174,7 @@ def run_prim(c) -> CaseResult:
     x0 = torch.randn(c["shape"], generator=g, dtype=torch.float64)
     up = torch.randn(c["shape"], generator=g, dtype=torch.float64)
     W = torch.randn(c["shape"][-1], c["shape"][-1], generator=g, dtype=torch.float64)
-    f = {"tanh": torch.tanh, "sin": torch.sin, "sq": lambda t: t * t / 4, "ugelu": U.gelu, "W": lambda t: t @ W}[c["branch"]]
+    f = {"tanh": torch.tanh, "sin": torch.sin, "sq": lambda t: torch.tanh(t) ** 2 * 2, "ugelu": U.gelu, "W": lambda t: t @ W}[c["branch"]]
     x1 = x0.clone().requires_grad_()
     x2 = x0.clone().requires_grad_()
     y1 = U.residual_apply(f, x1, tau)
@@ -196,7 +199,7 @@ CHECK = Check(
     parts=[Part("programs", run, strategy=cases, budget={"quick": 700, "thorough": 15000}),
            Part("primitives", run_prim, strategy=prim_cases, budget={"quick": 500, "thorough": 8000})],
     rule=("programs: recursive Hypothesis strategy - 1-8 sequential residual layers, each Residual(tau, branch) with branch a sequence of "
-          "1-3 of {fixed matrix, tanh, sin, x^2/4, U.gelu, U.silu, U.linear, nested layer} (nesting <= 3), each layer written either as "
+          "1-3 of {fixed matrix, tanh, sin, 2 tanh(x)^2, U.gelu, U.silu, U.linear, nested layer} (nesting <= 3), each layer written either as "
           "split/f/add or residual_apply; tau log-uniform in [1e-3,1e3] + {0.01,0.5,1}; float64 inputs of rank 1-3. Oracle: the same tree "
           "evaluated with plain torch as (x + tau f(x))/sqrt(1+tau^2) and autograd (outputs rel 1e-10, x.grad rel 1e-9); hooks on branch "
           "output vs add output (rel 1e-12). primitives: mixing weights, residual_apply bitwise equal to split/f/add, gradcheck. "
